@@ -125,7 +125,10 @@ type gateLV struct {
 	rid int
 }
 
-func (v gateLV) LogValue() slog.Value { v.g.hit(v.rid); return slog.StringValue("lv" + strconv.Itoa(v.rid)) }
+func (v gateLV) LogValue() slog.Value {
+	v.g.hit(v.rid)
+	return slog.StringValue("lv" + strconv.Itoa(v.rid))
+}
 
 // gateAny is reached through json.Marshaler (JSON), encoding.TextMarshaler (Text) or fmt.Stringer (Nano, Logf).
 type gateAny struct {
@@ -554,13 +557,130 @@ func execute(e *hk.Env, sc *scenario) outcome {
 	return out
 }
 
+// ------------------------------------------------------------------------------------------------ threshold sweep
+
+var sweepThresholds = []int{-8, -1, 0, 1, 2, 3, 4, 5, 6, 7, 8, 9, 11, 12, 13, 15, 16, 17, 20, 100}
+var validLevels = []slog.Level{logger.LevelDebug, logger.LevelInfo, logger.LevelWarn, logger.LevelError, logger.LevelFatal}
+
+// thresholdSweep: one goroutine, every threshold (also between and beyond the named levels) x every valid record level x
+// three handlers x root / With / WithGroup logger x every entry point that does not exit: exactly one Write carrying the
+// whole line iff level >= threshold, no Write otherwise.
+//
+//	T <kind> <threshold> <level> <entry> <shape> <writes> <eq>
+func thresholdSweep(e *hk.Env) (calls, bad int) {
+	ctx := context.Background()
+	shapes := []struct {
+		name  string
+		chain []lg.Step
+	}{{"root", nil}, {"With", []lg.Step{withStep(1)}}, {"WithGroup", []lg.Step{{Group: "g"}}}}
+	type entry struct {
+		name string
+		ok   func(lv slog.Level) bool
+		call func(l *logger.Logger, h logger.Handler, lv slog.Level, msg string)
+	}
+	named := func(lv slog.Level) bool { return lv <= logger.LevelError } // Fatal() exits, Panic() panics
+	any := func(slog.Level) bool { return true }
+	entries := []entry{
+		{"Named", named, func(l *logger.Logger, _ logger.Handler, lv slog.Level, msg string) {
+			switch lv {
+			case logger.LevelDebug:
+				l.Debug(msg, "k", 1)
+			case logger.LevelInfo:
+				l.Info(msg, "k", 1)
+			case logger.LevelWarn:
+				l.Warn(msg, "k", 1)
+			default:
+				l.Error(msg, "k", 1)
+			}
+		}},
+		{"Namedf", named, func(l *logger.Logger, _ logger.Handler, lv slog.Level, msg string) {
+			switch lv {
+			case logger.LevelDebug:
+				l.Debugf("%s k=%d", msg, 1)
+			case logger.LevelInfo:
+				l.Infof("%s k=%d", msg, 1)
+			case logger.LevelWarn:
+				l.Warnf("%s k=%d", msg, 1)
+			default:
+				l.Errorf("%s k=%d", msg, 1)
+			}
+		}},
+		{"Log", any, func(l *logger.Logger, _ logger.Handler, lv slog.Level, msg string) { l.Log(ctx, lv, msg, "k", 1) }},
+		{"Logf", any, func(l *logger.Logger, _ logger.Handler, lv slog.Level, msg string) {
+			l.Logf(ctx, lv, "%s k=%d", msg, 1)
+		}},
+		{"LogAttrs", any, func(l *logger.Logger, _ logger.Handler, lv slog.Level, msg string) {
+			l.LogAttrs(ctx, lv, msg, slog.Int("k", 1))
+		}},
+		{"Enabled+Handle", any, func(_ *logger.Logger, h logger.Handler, lv slog.Level, msg string) {
+			if h.Enabled(lv) { // as Logger does, with a hand-built record
+				h.Handle(ctx, lg.NewRecord(lv, msg, slog.Int("k", 1)))
+			}
+		}},
+	}
+	id := 0
+	for _, k := range lg.Kinds {
+		for _, th := range sweepThresholds {
+			for _, sh := range shapes {
+				var c lg.Capture
+				h := lg.Apply(lg.NewHandler(k, &c, slog.Level(th)), sh.chain)
+				l := logger.New(h)
+				// the yardstick: the same logger with everything enabled
+				var cs lg.Capture
+				hs := lg.Apply(lg.NewHandler(k, &cs, slog.Level(-1000)), sh.chain)
+				ls := logger.New(hs)
+				for _, lv := range validLevels {
+					for _, en := range entries {
+						if !en.ok(lv) {
+							continue
+						}
+						id++
+						calls++
+						msg := lg.Msg(id)
+						func() {
+							defer func() { recover() }()
+							en.call(l, h, lv, msg)
+						}()
+						func() {
+							defer func() { recover() }()
+							en.call(ls, hs, lv, msg)
+						}()
+						got, want := c.Take(), cs.Take()
+						eq := len(got) == 1 && len(want) == 1 && bytes.Equal(lg.NormTime(k, got[0]), lg.NormTime(k, want[0]))
+						b := 0
+						if eq {
+							b = 1
+						}
+						e.Case("T", strconv.Itoa(int(k)), strconv.Itoa(th), strconv.Itoa(int(lv)), en.name, sh.name, strconv.Itoa(len(got)), strconv.Itoa(b))
+						should := int(lv) >= th
+						if (should && !eq) || (!should && len(got) != 0) {
+							bad++
+							if bad <= 6 {
+								var first []byte
+								if len(got) > 0 {
+									first = got[0]
+								}
+								e.Case("VIOL", "c02", fmt.Sprintf("threshold kind=%s threshold=%d level=%d entry=%s logger=%s writes=%d expected-writes=%d", k, th, int(lv), en.name, sh.name,
+									len(got), map[bool]int{true: 1, false: 0}[should]), "got="+hk.Hx(clipb(first)))
+							}
+						}
+					}
+				}
+			}
+		}
+	}
+	return
+}
+
 // ------------------------------------------------------------------------------------------------ generators
 
 var sizes = []int{10, 100, 1000, 4000, 15000, 16300, 17000, 40000, 65536}
 var levels = []slog.Level{logger.LevelDebug, logger.LevelInfo, logger.LevelWarn, logger.LevelError}
 
 func withStep(i int) lg.Step {
-	return lg.Step{Attrs: func() []slog.Attr { return []slog.Attr{slog.String("w"+strconv.Itoa(i), "v"+strconv.Itoa(i)), slog.Int("i", i)} }}
+	return lg.Step{Attrs: func() []slog.Attr {
+		return []slog.Attr{slog.String("w"+strconv.Itoa(i), "v"+strconv.Itoa(i)), slog.Int("i", i)}
+	}}
 }
 
 // handlers: mode 0 root only; 1 derived before the run; 2 derived during the run by the goroutines
@@ -744,8 +864,12 @@ func run(e *hk.Env) error {
 			do(sc)
 		}
 	}
+	tcalls, tbad := thresholdSweep(e)
+	e.Stats["threshold_sweep_calls"] = tcalls
+	e.Stats["threshold_sweep_violating"] = tbad
+	e.Stats["threshold_sweep_thresholds"] = sweepThresholds
 	e.Stats["seconds_by_scenario"] = durs
-	e.Stats["cases"] = scen
+	e.Stats["cases"] = scen + tcalls
 	e.Stats["scenarios"] = hist
 	e.Stats["scenarios_violating"] = bad
 	e.Stats["records"] = recsTotal
